@@ -193,6 +193,49 @@ pub struct Analysis {
   pub default_ifaces: BTreeSet<String>,
   /// (specifier, imported or re-exported name) of every named / default import and `export { x } from`
   pub named_refs: Vec<(String, String)>,
+  /// every declaration kind of a top-level name, in order (a name may be declared in the value and the type namespace)
+  pub kinds_all: IndexMap<String, Vec<String>>,
+  pub imported: BTreeSet<String>,
+  /// leftmost identifiers of type references / of `typeof` queries and `extends` expressions
+  pub type_refs: BTreeSet<String>,
+  pub value_refs: BTreeSet<String>,
+}
+
+struct NsRefs {
+  type_refs: BTreeSet<String>,
+  value_refs: BTreeSet<String>,
+}
+fn leftmost(e: &TsEntityName) -> String {
+  match e {
+    TsEntityName::Ident(i) => i.sym.to_string(),
+    TsEntityName::TsQualifiedName(q) => leftmost(&q.left),
+  }
+}
+impl Visit for NsRefs {
+  fn visit_ts_type_ref(&mut self, n: &TsTypeRef) {
+    self.type_refs.insert(leftmost(&n.type_name));
+    n.visit_children_with(self);
+  }
+  fn visit_ts_type_query(&mut self, n: &TsTypeQuery) {
+    if let TsTypeQueryExpr::TsEntityName(e) = &n.expr_name {
+      self.value_refs.insert(leftmost(e));
+    }
+    n.visit_children_with(self);
+  }
+  fn visit_ts_expr_with_type_args(&mut self, n: &TsExprWithTypeArgs) {
+    if let Expr::Ident(i) = &*n.expr {
+      self.type_refs.insert(i.sym.to_string());
+    }
+    n.visit_children_with(self);
+  }
+  fn visit_class(&mut self, n: &Class) {
+    if let Some(sc) = &n.super_class
+      && let Expr::Ident(i) = &**sc
+    {
+      self.value_refs.insert(i.sym.to_string());
+    }
+    n.visit_children_with(self);
+  }
 }
 
 fn pat_names(p: &Pat, out: &mut BTreeSet<String>) {
@@ -424,7 +467,8 @@ pub fn analyze(url: &str, text: &str, check_erasure: bool) -> Result<Analysis, S
   .map_err(|e| e.to_string())?;
   let program = parsed.program();
   let Program::Module(module) = &*program else { return Err("not a module".into()) };
-  let mut a = Analysis { top_level: Default::default(), exports: Default::default(), stars: vec![], unresolved: Default::default(), erasure: vec![], decl_kinds: Default::default(), default_ifaces: Default::default(), named_refs: vec![] };
+  let mut a = Analysis { top_level: Default::default(), exports: Default::default(), stars: vec![], unresolved: Default::default(), erasure: vec![], decl_kinds: Default::default(), default_ifaces: Default::default(), named_refs: vec![],
+    kinds_all: Default::default(), imported: Default::default(), type_refs: Default::default(), value_refs: Default::default() };
   for item in &module.body {
     match item {
       ModuleItem::Stmt(Stmt::Decl(d)) => decl_names(d, &mut a.top_level, &mut a.decl_kinds),
@@ -499,6 +543,36 @@ pub fn analyze(url: &str, text: &str, check_erasure: bool) -> Result<Analysis, S
   let mut u = Unresolved { ctxt: parsed.unresolved_context(), names: Default::default() };
   module.visit_with(&mut u);
   a.unresolved = u.names;
+  // namespace-aware bookkeeping
+  for item in &module.body {
+    let d = match item {
+      ModuleItem::Stmt(Stmt::Decl(d)) => Some(d),
+      ModuleItem::ModuleDecl(ModuleDecl::ExportDecl(e)) => Some(&e.decl),
+      ModuleItem::ModuleDecl(ModuleDecl::Import(i)) => {
+        for sp in &i.specifiers {
+          a.imported.insert(match sp {
+            ImportSpecifier::Named(n) => n.local.sym.to_string(),
+            ImportSpecifier::Default(d) => d.local.sym.to_string(),
+            ImportSpecifier::Namespace(n) => n.local.sym.to_string(),
+          });
+        }
+        None
+      }
+      _ => None,
+    };
+    if let Some(d) = d {
+      let mut ns = BTreeSet::new();
+      let mut ks = IndexMap::new();
+      decl_names(d, &mut ns, &mut ks);
+      for (n, k) in ks {
+        a.kinds_all.entry(n).or_default().push(k);
+      }
+    }
+  }
+  let mut nr = NsRefs { type_refs: Default::default(), value_refs: Default::default() };
+  module.visit_with(&mut nr);
+  a.type_refs = nr.type_refs;
+  a.value_refs = nr.value_refs;
   if check_erasure {
     let mut e = Erasure::default();
     module.visit_with(&mut e);
@@ -613,6 +687,25 @@ pub fn project(world: &FcWorld, g: &ModuleGraph) -> Value {
               // identifiers that referred to a top-level declaration/import of the original but are unresolved now
               let dangling: Vec<String> = orig.as_ref().map(|o| a.unresolved.iter().filter(|n| o.top_level.contains(*n)).cloned().collect()).unwrap_or_default();
               v["dangling"] = json!(dangling);
+              // a name can live in the type namespace, the value namespace or both: a reference in one namespace needs a
+              // declaration (or import) in that namespace, if the original had one there
+              let has = |an: &Analysis, n: &str, kinds: &[&str]| an.kinds_all.get(n).map(|ks| ks.iter().any(|k| kinds.contains(&k.as_str()))).unwrap_or(false);
+              let type_kinds = ["class", "interface", "type", "enum", "namespace"];
+              let value_kinds = ["class", "function", "var", "enum", "namespace"];
+              let mut ns_dangling = vec![];
+              if let Ok(o) = orig.as_ref() {
+                for n in &a.type_refs {
+                  if has(o, n, &type_kinds) && !has(&a, n, &type_kinds) && !a.imported.contains(n) {
+                    ns_dangling.push(format!("type {n}"));
+                  }
+                }
+                for n in &a.value_refs {
+                  if has(o, n, &value_kinds) && !has(&a, n, &value_kinds) && !a.imported.contains(n) {
+                    ns_dangling.push(format!("value {n}"));
+                  }
+                }
+              }
+              v["nsDangling"] = json!(ns_dangling);
               // names imported / re-exported by name from a module of the analysed packages must be exported by what
               // the type checker will see for that module: its emitted counterpart, or its original when none was emitted
               let mut missing = vec![];
@@ -1021,7 +1114,7 @@ pub fn gen_world(rng: &mut StdRng, slow: f64) -> FcWorld {
       let n = g.rng.gen_range(2..=5);
       let mut ds = vec![];
       for i in 0..n {
-        let kind = ["iface", "alias", "func", "class", "konst", "enum", "ns", "gfunc", "aclass", "giface"][g.rng.gen_range(0..10)];
+        let kind = ["iface", "alias", "func", "class", "konst", "enum", "ns", "gfunc", "aclass", "giface", "dual"][g.rng.gen_range(0..11)];
         let exported = g.rng.gen_bool(0.6);
         let name = format!("{}{}_{}{}", &kind[..1].to_uppercase(), i, pk, f.replace(".ts", ""));
         if exported && matches!(kind, "iface" | "alias" | "class" | "enum" | "aclass") {
@@ -1112,6 +1205,15 @@ pub fn gen_world(rng: &mut StdRng, slow: f64) -> FcWorld {
             "{ex}abstract class {name}<T = {t1}> {{ readonly r: T = null as any; protected q?: {t2}; static readonly S: string = \"s\"; abstract am(v: T): {t2}; om?(): void; protected pm(a: {t1}, b?: number): T {{ console.log(a, b); return this.r; }} set w(v: {t2}) {{ console.log(v); }} }}\n"
           ),
           ("giface", _) => format!("{ex}interface {name}<K extends string = string> {{ [key: string]: unknown; (arg: {t1}): {t2}; new (arg: K): {name}<K>; m<V>(v: V, ...r: {t1}[]): V; readonly ro?: K; }}\n"),
+          // one name in both namespaces (private value + private type), each reached by its own public reference
+          ("dual", _) => {
+            let (first, second) = if g.rng.gen_bool(0.5) {
+              (format!("export function ut_{name}(a: {name}): void {{ console.log(a); }}\n"), format!("export const uv_{name}: typeof {name} = null as any;\n"))
+            } else {
+              (format!("export const uv_{name}: typeof {name} = null as any;\n"), format!("export function ut_{name}(a: {name}): void {{ console.log(a); }}\n"))
+            };
+            format!("const {name}: {{ readonly tag: \"v\" }} = {{ tag: \"v\" }};\ntype {name} = {t1} | \"t\";\n{first}{second}")
+          }
           ("ns", _) => format!("{ex}namespace {name} {{ export interface Inner {{ v: {t1} }} export const k: number = 1; }}\n"),
           _ => unreachable!(),
         };
@@ -1420,9 +1522,24 @@ pub fn render_shape(shape: &Value) -> FcWorld {
         "accessor-ann" => "accessor y: number = helper();",
         "readonly-lit" => "readonly x = 1;",
         "optional-method-ann" => "m?(): number;",
+        // decorators (removed from every position; their arguments are executable logic)
+        "dec-prop-ann" => "@dec(helper()) x: number = 1;",
+        "dec-static-prop-ann" => "@dec(\"label\") protected static x: string = \"s\";",
+        "dec-prop-lit" => "@dec(helper()) x = 1;",
+        "dec-priv-prop" => "@dec(helper()) private x: number = 1;",
+        "dec-method" => "@dec(helper()) m(): void { helper(); }",
+        "dec-accessor" => "@dec(helper()) accessor y: number = 1;",
+        "dec-getter" => "@dec(helper()) get g(): number { return 1; }",
+        "dec-param" => "m(@dec(helper()) p: number): void { helper(); }",
+        "dec-ctor-param-prop" => "constructor(@dec(helper()) public a: number) { helper(); }",
         _ => "",
       };
-      format!("export class Subject {{ {m} }}\n")
+      let decl_dec = if s("member").starts_with("dec-") { "function dec(...a: any[]): any { return () => {}; }\n" } else { "" };
+      if s("member") == "dec-class" {
+        format!("{decl_dec}@dec(helper())\nexport class Subject {{ x: number = 1; }}\n")
+      } else {
+        format!("{decl_dec}export class Subject {{ {m} }}\n")
+      }
     }
     "misc" => match s("misc").as_str() {
       "export-assign" => "const value: number = 1;\nexport = value;\n".to_string(),
